@@ -150,10 +150,19 @@ def make_case(text, ops, want=None):
         steps = []
         for o in ops:
             res = do_op(ch, twin, o)
-            now = pyval.r_chart(ch)
-            keys = [k.value if hasattr(k, "value") else str(k) for k in ch.instrument_tracks.keys()]
+            try:
+                now = pyval.r_chart(ch)
+            except Exception:  # noqa: BLE001  (the chart can no longer be walked: an accepted deletion, a list that is gone)
+                now = None
+            try:
+                keys = [k.value if hasattr(k, "value") else str(k) for k in ch.instrument_tracks.keys()]
+            except Exception:  # noqa: BLE001
+                keys = ["<unreadable>"]
             unchanged = now == first and sorted(vars(ch).keys()) == first_vars and text_of(ch) == first_text
-            teq = bool(ch == twin) and bool(twin == ch)
+            try:
+                teq = bool(ch == twin) and bool(twin == ch)
+            except Exception:  # noqa: BLE001
+                teq = False
             steps.append("(%s, %s, %s, %s)" % (coq_bool(unchanged), coq_list(coq_str(k) for k in keys), coq_bool(teq), res))
         out = "(Ok (%s, %s))" % (first, coq_list(steps))
     return dict(case=dict(text=text, ops=ops, want=want), in_term="(%s, %s)" % (parse_in_term(text, want), coq_list(r_op(o) for o in ops)), out_term=out,
